@@ -2,7 +2,7 @@ use std::{collections::HashMap, fmt::Display};
 
 use compact_str::{CompactString, ToCompactString};
 use itertools::Itertools;
-use num_traits::Zero;
+use num_traits::{CheckedAdd, CheckedMul, Zero};
 use thiserror::Error;
 
 use crate::{
@@ -19,6 +19,9 @@ pub enum RegistryError {
 
     #[error("Unknown entry '{0}'.")]
     UnknownEntry(String, Option<String>),
+
+    #[error("Overflow in the computation of a dimension exponent")]
+    ExponentOverflow,
 }
 
 pub type Result<T> = std::result::Result<T, RegistryError>;
@@ -48,12 +51,24 @@ impl Canonicalize for BaseRepresentationFactor {
     fn is_trivial(&self) -> bool {
         self.1 == Rational::zero()
     }
+
+    fn try_merge(self, other: Self) -> Option<Self> {
+        Some(BaseRepresentationFactor(
+            self.0,
+            self.1.checked_add(&other.1)?,
+        ))
+    }
 }
 
 impl Power for BaseRepresentationFactor {
     fn power(self, e: Exponent) -> Self {
         let BaseRepresentationFactor(entry, exp) = self;
         BaseRepresentationFactor(entry, exp * e)
+    }
+
+    fn try_power(self, e: Exponent) -> Option<Self> {
+        let BaseRepresentationFactor(entry, exp) = self;
+        Some(BaseRepresentationFactor(entry, exp.checked_mul(&e)?))
     }
 }
 
